@@ -8,6 +8,30 @@ TRUST = ("Python/numpy semantics; the harness's own oracle code in /verif/mc; th
          "stated in the evidence file (nothing is claimed outside them)")
 
 CHECKS = {
+    "C01": dict(engine="pipeline", design_ref="3/C01",
+        technique="bounded exhaustive enumeration of configurations (presets x all countries; every single option deviation; thorough: every pair) through the real three-round run; ledger audit of every solved allocation, written from the supplies, on every (round, month)",
+        text="Every linear programme the model builds inside the enumerated configuration space is audited after its last solve: non-negativity, stored food / crops / meat cumulative balances, monthly SCP and sugar caps, the seaweed growth-and-harvest recurrence with density and area bounds, feed/biofuel totals vs the charged series or ceilings, feed never rising in the feed round. The audit is derived from what physically exists each month, not from the model's own constraint objects, so a missing or too-weak balance shows.",
+        note=TRUST + "; tolerances 1e-5 relative + 1e-6 absolute on cumulative clauses (CBC primal tolerance 1e-7 per value)"),
+    "C02": dict(engine="pipeline", design_ref="3/C02",
+        technique="same enumeration; every LP instance re-formulated independently from the captured inputs and solved with HiGHS, optima compared at 1e-5 relative",
+        text="For each enumerated (country, configuration, round) the reported optimum is compared with the optimum of an independently written formulation (cumulative what-exists-so-far constraints, documented intake caps, charge or ceilings, pinned bands, monotone feed) solved by a different solver. The deciding step is the enumeration of instances; HiGHS is the oracle for one instance.",
+        note=TRUST + "; CBC and HiGHS trusted as LP solvers; an instance HiGHS cannot solve numerically is counted, not judged"),
+    "C03": dict(engine="pipeline", design_ref="3/C03",
+        technique="same enumeration incl. the threshold override T in {0,10,50,100}; relations between the three dependent optimisations of each run, all controller branches",
+        text="For every enumerated run: final < T => essentially no feed/biofuel from human-edible food in any month and final >= no-feed round; no-feed round >= T => final >= T; in every round and month feed and biofuel stay within the independently recomputed demand schedule and are zero after the shut-off month.",
+        note=TRUST + "; 0.1 percent-fed-equivalent is the maintainers' own 'essentially zero'; genuine violations by the recorded worst-month-cap mechanism are listed in known_findings.json"),
+    "C04": dict(engine="pipeline", design_ref="3/C04",
+        technique="same enumeration; per (round, month) comparison of headline, per-food breakdown, captured allocation and the CSV written to disk",
+        text="Headline == worst month of the summed per-food series; every series == allocation x unit factor; headline within 0.01 % of the first-stage optimum (tie-break solves never degrade it); saved table == returned numbers; crop split adds up.",
+        note=TRUST + "; 1e-6 percentage points absolute allowance on a near-zero optimum (solver primal tolerance)"),
+    "C05": dict(engine="pipeline", design_ref="3/C05",
+        technique="same enumeration; herd simulation objects captured at the CalculateFeedAndMeat seam and compared month by month with the optimiser inputs of each round",
+        text="Meat and milk energy handed to each round's optimiser are recomputed from the herd run of that round (slaughter counts x class yields x waste; milking herd x yield x wastes); final-round feed charge >= feed the final herd run ate; grass used <= grass given; the no-feed round ran its herds on no feed.",
+        note=TRUST + "; per-kg energy and default carcass weights are the documented constants of MeatAndDairy"),
+    "C16": dict(engine="pipeline", design_ref="3/C16",
+        technique="the enumerated grid itself (presets x all countries x single deviations): completion, assertions, banners, finite non-negative headline",
+        text="Every run of the enumerated grid must complete with all built-in validation passing and no validation banner printed; failures are genuine by construction and are listed explicitly in known_findings.json.",
+        note=TRUST),
     "C18": dict(
         engine="helpers+pipeline",
         technique="exhaustive enumeration (full products over small value menus) of the four hand-off helpers on the real code, statement-level invariants as oracle",
@@ -51,6 +75,8 @@ CHECKS = {
         note=TRUST + "; reference table of option values in mc/props/c13.py (EXPECT) transcribed from scenarios/README.md and setter docstrings"),
 }
 
+PENDING = {"C03": "check built (mc/pipeline.py) but not claimed until the explicit list of grid findings has been collected from the thorough run",
+           "C16": "check built (mc/pipeline.py) but not claimed until the explicit list of grid findings has been collected from the thorough run"}
 NOT_YET = "check not built yet in this session (planned in DESIGN.md section 3); not claimed until its machinery exists"
 
 
@@ -60,6 +86,9 @@ def main():
     na = []
     for pid in ids:
         c = CHECKS.get(pid)
+        if pid in PENDING:
+            na.append({"property_id": pid, "reason": PENDING[pid]})
+            continue
         if c is None:
             na.append({"property_id": pid, "reason": NOT_YET})
             continue
@@ -94,6 +123,8 @@ def main():
             {"name": "units", "path": "mc/props/c10.py", "serves_properties": ["C10"], "kind_free_text": "exhaustive product over unit triples on Food.in_units"},
             {"name": "food-ops", "path": "mc/props/c11.py", "serves_properties": ["C11"], "kind_free_text": "BFS over operation sequences on real Food objects with exact state hashing and a reference value type"},
             {"name": "options", "path": "mc/props/c13.py", "serves_properties": ["C13"], "kind_free_text": "explicit-state search over the exactly-once flag sets of a real Scenarios object; dispatcher deviations against a reference table"},
+            {"name": "pipeline", "path": "mc/pipeline.py", "serves_properties": ["C01", "C02", "C03", "C04", "C05", "C16", "C18"],
+             "kind_free_text": "bounded exhaustive enumeration of (country, option dictionary) through the real three-round run with all monitors attached; results cached per source tree in /verif/.cache"},
         ],
         "checks": checks,
         "not_applicable": na,
